@@ -25,6 +25,19 @@ for mp in sorted(glob.glob(os.path.join(ROOT, "seeded", "*", "meta.json"))):
     note = m.get("integrator_note", "")
     out.append("| %s | %s | %s | %s / %s | %s %s |" % (os.path.basename(os.path.dirname(mp)), str(m.get("summary", ""))[:300].replace("|", "/"),
                str(m.get("needs", ""))[:250].replace("|", "/"), "yes" if v.get("demo_with_patch_rc") else "?", "yes" if v.get("demo_without_patch_rc") == 0 else "?", res, note))
+out.append("\n#### Checks as built (from the check modules and the committed evidence of the last quick run)\n")
+out.append("| id | level | technique | TLC states / transitions (quick) | behaviours replayed or traces validated | evaluations |\n|---|---|---|---|---|---|")
+for l in open(os.path.join(ROOT, "tools", "ready.txt")):
+    pid = l.strip()
+    if not pid or pid.startswith("#"): continue
+    try:
+        m = importlib.import_module("checks." + pid.lower())
+        e = json.load(open(os.path.join(ROOT, "evidence", pid + ".json")))
+        c = e["coverage"]
+        out.append("| %s | %s | %s | %s / %s | %s | %s |" % (pid, m.LEVEL, getattr(m, "TECHNIQUE", "")[:260].replace("|", "/"), c.get("states", ""), c.get("transitions", ""),
+                   c.get("traces_validated_against_impl", ""), c.get("evaluations", "")))
+    except Exception as x:
+        out.append("| %s | ? | %s | | | |" % (pid, x))
 txt = "\n".join(out) + "\n"
 p = os.path.join(ROOT, "DESIGN.md"); s = open(p).read()
 a, b = "<!-- GENERATED:BEGIN -->", "<!-- GENERATED:END -->"
